@@ -73,11 +73,23 @@
         server(HttpError::UnwritableResponse);
     }
 
-    // payload-carrying variants: the response is independent of the (arbitrary) payload text
+    // `format!` is stubbed (std::fmt is far beyond CBMC's budget): a mapping that formats the payload
+    // into the body then yields this marker text, which the assertions below reject all the same
+    fn stub_format(_args: std::fmt::Arguments<'_>) -> String { String::from("<formatted text>") }
+
+    fn sym_kind() -> ErrorKind {
+        match kani::any::<u8>() % 8 {
+            0 => ErrorKind::NotFound, 1 => ErrorKind::PermissionDenied, 2 => ErrorKind::StorageFull,
+            3 => ErrorKind::QuotaExceeded, 4 => ErrorKind::FileTooLarge, 5 => ErrorKind::UnexpectedEof,
+            6 => ErrorKind::InvalidData, _ => ErrorKind::Other,
+        }
+    }
+    // payload-carrying variants: the response is independent of the (arbitrary) payload text and kind
     // @harness class=complete
     #[kani::proof]
+    #[kani::stub(alloc::fmt::format, stub_format)]
     fn c20_server_errors_payload() {
-        let kind = if kani::any() { ErrorKind::NotFound } else { ErrorKind::PermissionDenied };
+        let kind = sym_kind();
         match kani::any::<u8>() % 3 {
             0 => server(HttpError::ErrorReadingFile(kind, sym_string())),
             1 => server(HttpError::ErrorReadingResponseBody(kind, sym_string())),
